@@ -77,6 +77,7 @@ def explore(rows, prms, max_nodes=12):
         index = {digest(c0): 0}
         edges = []
         todo = [0]
+        alts = {}          # other chunk objects that reached an already known state by another path
         while todo:
             n = todo.pop(0)
             for op in OPS:
@@ -89,8 +90,28 @@ def explore(rows, prms, max_nodes=12):
                     index[d] = len(chunks)
                     chunks.append(c)
                     todo.append(index[d])
+                elif index[d] != n or op in ('fs', 'fg', 'fl'):
+                    if len(alts.setdefault(index[d], [])) < 4:
+                        alts[index[d]].append((c, n, op))
                 edges.append((n, op, index[d], out))
-    obs = {'rows': rows, 'data': data0, 'flag': flag, 'eff': eff, 'trace': tr}
+        # the reduction rests on "equal observable state => equal behaviour": check it one step deep on every object that
+        # reached a known state by another path (a hidden attribute that steers the next call shows up here)
+        hidden = None
+        for node, objs in alts.items():
+            for (c_alt, src, via) in objs:
+                for op in OPS:
+                    cc = copy.deepcopy(c_alt)
+                    out = apply(cc, op)
+                    ref = [e for e in edges if e[0] == node and e[1] == op][0]
+                    if out != ref[3] or index.get(digest(cc)) != ref[2]:
+                        hidden = (f'state {node} reached through node{src}.{via} answers {op} with {out} -> '
+                                  f'{index.get(digest(cc), "a new state")}, the first object in that state with {ref[3]} -> {ref[2]}')
+                        break
+                if hidden:
+                    break
+            if hidden:
+                break
+    obs = {'rows': rows, 'data': data0, 'flag': flag, 'eff': eff, 'trace': tr, 'hidden': hidden}
     return [state_tokens(c) for c in chunks], edges, obs, None
 
 
@@ -124,6 +145,8 @@ def _work(args):
         res['findings'].append(('C14.at-most-four-canonical-states', note))
         return res
     res['n_nodes'], res['n_edges'] = len(nodes), len(edges)
+    if obs.get('hidden'):
+        res['findings'].append(('C14.behaviour-is-a-function-of-the-observable-state', obs['hidden']))
     canon_msgs = {w: 'msg:' + canon.metar_msg(WHICH[w]).replace(' ', '_') for w in 'SGL'}
     # properties of the implementation's graph itself
     if len(nodes) > 4:
